@@ -59,8 +59,24 @@ func c19Prepare(w *world.World) *c19Setup {
 	w.AddCRD("TJob", "apps.tkestack.io", "v1", "tjobs")
 	s.tf = world.PodSpec{Name: "j-0", NS: "ns", OwnerKind: "TJob", OwnerName: "j", Policy: "immutable"}
 	w.CreatePod(s.tf)
-	// the pods of both custom kinds are bound and deleted: handling their delete events asks the CRD cache for the replicas of
-	// their apps (for TApp it has been asked before, for TJob never)
+	s.rg = world.PodSpec{Name: "r-0", NS: "ns", OwnerKind: "StatefulSet", OwnerName: "r", Ranges: `[["10.10.1.1~10.10.1.2","10.10.2.1~10.10.2.2"]]`}
+	w.SetStatefulSet("ns", "r", 1)
+	w.CreatePod(s.rg)
+	_, _ = w.Filter(s.tk.Key()) // warms the CRD key cache for the known kind
+	mustSchedule(w, s.z.Key())
+	_, _ = w.Filter(s.y.Key()) // y is filtered, its Bind is one of the concurrent entry points
+	w.DeletePod(s.z.Key())
+	s.zOld = takePending(w)
+	w.CreatePod(s.z) // z is re-created under its name: its old incarnation's events are still to be handled
+	s.altConfig = "[" + poolJSON([]string{"10.0.1.0/24"}, []string{"10.10.1.1~10.10.1.3"}, "10.10.1.0/24", "10.10.1.254", 0) + "," +
+		poolJSON([]string{"10.0.2.0/24"}, []string{"10.10.2.1~10.10.2.2"}, "10.10.2.0/24", "10.10.2.254", 2) + "]"
+	return s
+}
+
+// c19PrepareCRDUnbind: pods of both custom kinds are bound and deleted: handling their delete events asks the CRD cache for the
+// replicas of their apps (for TApp it has been asked before, for TJob never). Only scenarios with an unbind-crd entry set
+// this up: the cache starts a real dynamic informer per kind, which takes its time in every execution.
+func c19PrepareCRDUnbind(w *world.World, s *c19Setup) {
 	s.crdOld = map[string][]world.Event{}
 	for _, ps := range []world.PodSpec{{Name: "t-1", NS: "ns", OwnerKind: "TApp", OwnerName: "t", Policy: "immutable"}, {Name: "j-1", NS: "ns", OwnerKind: "TJob", OwnerName: "j", Policy: "immutable"}} {
 		w.CreatePod(ps)
@@ -81,18 +97,6 @@ func c19Prepare(w *world.World) *c19Setup {
 			deliverAll(w, takePending(w))()
 		}
 	}
-	s.rg = world.PodSpec{Name: "r-0", NS: "ns", OwnerKind: "StatefulSet", OwnerName: "r", Ranges: `[["10.10.1.1~10.10.1.2","10.10.2.1~10.10.2.2"]]`}
-	w.SetStatefulSet("ns", "r", 1)
-	w.CreatePod(s.rg)
-	_, _ = w.Filter(s.tk.Key()) // warms the CRD key cache for the known kind
-	mustSchedule(w, s.z.Key())
-	_, _ = w.Filter(s.y.Key()) // y is filtered, its Bind is one of the concurrent entry points
-	w.DeletePod(s.z.Key())
-	s.zOld = takePending(w)
-	w.CreatePod(s.z) // z is re-created under its name: its old incarnation's events are still to be handled
-	s.altConfig = "[" + poolJSON([]string{"10.0.1.0/24"}, []string{"10.10.1.1~10.10.1.3"}, "10.10.1.0/24", "10.10.1.254", 0) + "," +
-		poolJSON([]string{"10.0.2.0/24"}, []string{"10.10.2.1~10.10.2.2"}, "10.10.2.0/24", "10.10.2.254", 2) + "]"
-	return s
 }
 
 // c19Entries returns the entry points by name.
@@ -163,6 +167,9 @@ func c19IPAMScenarios(tier string) []*Scenario {
 			Build: func(w *world.World) []Thread {
 				s := c19Prepare(w)
 				for _, n := range sel {
+					if strings.HasPrefix(n, "unbind-crd") && s.crdOld == nil {
+						c19PrepareCRDUnbind(w, s)
+					}
 					if n == "bind-cache-miss" {
 						// reset the node-subnet cache after y was filtered: same pools, other text
 						w.ConfigMap = strings.Replace(w.ConfigMap, `"vlan":2`, `"vlan":3`, 1)
